@@ -71,6 +71,16 @@ func c15Run(prog []byte, i int, leaf func()) {
 	c15Callees[int(prog[i])%len(c15Callees)](func() { c15Run(prog, i+1, leaf) })
 }
 
+// c15Location renders a frame's location as documented for stack counter
+// names, from the frame alone.
+func c15Location(fr runtime.Frame) string {
+	if fr.Func != nil {
+		_, entryLine := runtime.FuncForPC(fr.Entry).FileLine(fr.Entry)
+		return fmt.Sprintf(":%+d,+0x%x", fr.Line-entryLine, fr.PC-fr.Entry)
+	}
+	return fmt.Sprintf(":=%d,+0x%x", fr.Line, fr.PC-fr.Entry)
+}
+
 var c15LocRE = regexp.MustCompile(`^:[+=-]\d+,\+0x[0-9a-f]+$`)
 
 // c15Render is the uncompressed rendering of the frames of pcs: the full
@@ -289,6 +299,12 @@ func c15Stacks(t *testing.T) {
 			line := dl[j]
 			if !strings.HasPrefix(line, fr.Function) || !c15LocRE.MatchString(line[len(fr.Function):]) {
 				res.Violate("expansion-mismatch", fmt.Sprintf("frame %d: decoded line %q, frame symbol %q (encoded line %q)", j-1, line, fr.Function, strings.Split(name, "\n")[j]), replay)
+				ok = false
+			} else if want := c15Location(fr); line[len(fr.Function):] != want {
+				// the documented location: line relative to the function's first line
+				// (':+N') for a physical frame, absolute (':=N') for an inlined one, and
+				// the pc relative to the enclosing function's entry
+				res.Violate("location-mismatch", fmt.Sprintf("frame %d (%s): location %q, the frame itself says %q", j-1, fr.Function, line[len(fr.Function):], want), replay)
 				ok = false
 			}
 			if strings.Contains(fr.Function, "[") {
